@@ -167,6 +167,14 @@ pub enum LayerLoadError {
         /// The underlying error.
         source: GlifLoadError,
     },
+    /// A glyph's file name in contents.plist is not a plain file name inside the layer directory.
+    #[error("the file name '{path}' of glyph '{name}' must be a plain file name")]
+    InvalidGlyphFileName {
+        /// The glyph name.
+        name: String,
+        /// The file name as given in contents.plist.
+        path: PathBuf,
+    },
     /// Could not find the layer's contents.plist.
     #[error("cannot find the contents.plist file")]
     MissingContentsFile,
